@@ -22,6 +22,8 @@ var scopeKeywords = map[string]string{"shared": "Shared", "contextual": "Context
 func C05(e *Env) {
 	r := e.R
 	e.analysedBase()
+	yamlKeysRule(e, "R11.12", "scope", "services")
+	e.R.Rule("R11.12", "key table (shared with C11): `scope` is recognised under its documented spelling (an ignored key leaves every service in the default scope)", 2)
 	r.Rule("R05.1", "scope chain: keyword → input.Scope constant (mapScopeString literal) → output.Scope constant (exhaustive switch of processScopes, nil → default, written at the index of the service it was read for) → template predicate → runtime setter; shared, contextual, non_shared and unset reach SetScopeShared, SetScopeContextual, SetScopeNonShared, SetScopeDefault, which exist in the pinned runtime", 12)
 	r.Rule("R05.2", "ValidateServicesScopes is wired into the output validation step and cannot be switched off", 2)
 	r.Rule("R05.3", "the scope validator raises exactly one kind of error, guarded by subject.Scope == ScopeShared and dependency.Scope == ScopeContextual, naming both; it inspects every dependency (no early loop exit) of the graph that BuildDependencyGraph builds from all edge kinds", 5)
@@ -594,6 +596,8 @@ func constCompareSub(cond ssa.Value, subst map[*ssa.Parameter]ssa.Value, depth i
 func C15(e *Env) {
 	r := e.R
 	e.analysedBase()
+	yamlKeysRule(e, "R11.12", "todo", "parameters", "services")
+	e.R.Rule("R11.12", "key table (shared with C11): `todo` is recognised under its documented spelling (an ignored key compiles the service as a regular one)", 3)
 	r.Rule("R15.1", "a todo service is compiled to name+flag only and generated as an error constructor (\"service todo\") followed by its registration; the todo parameter helper returns errors.New(params[0]) or errors.New(\"parameter todo\")", 4)
 	r.Rule("R15.2", "laziness: outside function literals the generated constructor calls only the runtime's registration API (newService, Service setters, Override*, AddDecorator, dependency* constructors); user functions, getParam, env helpers and callProvider appear only inside function literals, so nothing is evaluated while the container is built", 1)
 	r.Rule("R15.3", "todo/env/envInt are registered as built-in functions (map of StepDefaultInput, which is the runner's first step) and bound to helpers that exist in the generated constructor", 4)
